@@ -17,10 +17,10 @@ ENCODED = ["twisted.internet.base:_ThreePhaseEvent.addTrigger", "twisted.interne
            "twisted.internet.base:_ThreePhaseEvent._continueFiring",
            "twisted.internet.defer:DeferredList.__init__", "twisted.internet.defer:DeferredList._cbDeferred",
            "twisted.logger._logger:_FastFailCtxMgr.__exit__"]
-BOUNDS = {"quick": {"n": 4, "rm": 2}, "thorough": {"n": 6, "rm": 3}}
+BOUNDS = {"quick": {"n": 4, "nf": 4, "rm": 2}, "thorough": {"n": 6, "nf": 5, "rm": 2}}
 B = {}
-BOUNDS_TEXT = ("exactly n registrations on a fresh _ThreePhaseEvent (fewer are covered: an unused phase list is "
-               "empty), each with a symbolic phase; fire_order: every before-trigger returns None or an unfired "
+BOUNDS_TEXT = ("exactly n (fire_order: nf) registrations on a fresh _ThreePhaseEvent, each with a symbolic phase "
+               "(so every split of the triggers over the three phases, empty phases included); fire_order: every before-trigger returns None or an unfired "
                "Deferred, one symbolic trigger raises, the Deferreds are fired in every order (first one "
                "optionally with a failure); remove_before: <= rm removals by symbolic handle index before firing "
                "(double removal included); remove_during: one removal of a symbolic handle from inside a symbolic "
@@ -91,14 +91,14 @@ def _empty(ev):
 
 def fire_order(kinds: List[int], raiser: int, fire: List[int], failfirst: bool) -> bool:
     """
-    pre: len(kinds) == B['n'] and all(0 <= k <= 3 for k in kinds)
-    pre: 0 <= raiser <= B['n']
-    pre: len(fire) == B['n'] and all(0 <= fire[s] < B['n'] - s for s in range(B['n']))
+    pre: len(kinds) == B['nf'] and all(0 <= k <= 3 for k in kinds)
+    pre: 0 <= raiser <= B['nf']
+    pre: len(fire) == B['nf'] and all(0 <= fire[s] < B['nf'] - s for s in range(B['nf']))
     post: _
     """
     # kinds: 0 before returning None, 1 before returning an unfired Deferred, 2 during, 3 after
     # raiser: index of the one trigger that raises (n: none); fire: Lehmer code of the firing order
-    n = B['n']
+    n = B['nf']
     ev = _ThreePhaseEvent()
     log = []
     ds = []
@@ -331,12 +331,15 @@ def _first_two(var, vals):
 
 HARNESSES = [
     H(fire_order, shards=lambda tier: [(c,) for c in _first_two("kinds", range(4))],
-      timeout={"quick": 60, "thorough": 1200}),
-    H(remove_before, shards=lambda tier: [("phases[0] == %d" % a,) for a in range(3)],
-      timeout={"quick": 60, "thorough": 1200}),
-    H(remove_during, shards=lambda tier: [("phases[0] == %d" % a, "withd == %s" % w) for a in range(3)
-                                          for w in (True, False)],
-      timeout={"quick": 60, "thorough": 1200}),
+      timeout={"quick": 120, "thorough": 1200}),
+    H(remove_before, shards=lambda tier: ([("phases[0] == %d" % a,) for a in range(3)] if tier == "quick" else
+                                          [(c,) for c in _first_two("phases", range(3))]),
+      timeout={"quick": 120, "thorough": 1200}),
+    H(remove_during, shards=lambda tier: ([("phases[0] == %d" % a, "withd == %s" % w) for a in range(3)
+                                           for w in (True, False)] if tier == "quick" else
+                                          [(c, "withd == %s" % w) for c in _first_two("phases", range(3))
+                                           for w in (True, False)]),
+      timeout={"quick": 120, "thorough": 1200}),
 ]
 
 VECTORS = {
